@@ -671,7 +671,8 @@ where
         }
     }
     if let Some(f) = &report.failure {
-        if f.reason.starts_with("harness abort") {
+        // `INFRA:` = the environment (sockets, ports, threads) failed, not the code under test
+        if f.reason.starts_with("harness abort") || f.reason.contains("INFRA:") {
             report.inconclusive = Some(f.reason.clone());
             report.failure = None;
         }
